@@ -22,7 +22,30 @@ def exported(ctx: Ctx, cls: Class, _depth: int = 0) -> Dict[str, ast.AST]:
 def _exported_of(ctx: Ctx, f: Func, cls: Class, depth: int) -> Dict[str, ast.AST]:
     out: Dict[str, ast.AST] = {}
     dict_names: Set[str] = set()
+    # a loop over a constant table of field names that fills the dict (`for name in FIELDS: data[name] = getattr(...)`) is
+    # read as the statements it stands for
+    if any(isinstance(x, ast.For) for x in own_nodes(f.node)):
+        from .normalise import normalised
+
+        try:
+            f = normalised(ctx, f, "unroll,getattr")
+        except Exception:  # noqa: BLE001 - the normaliser is an aid; the plain reading below still applies
+            pass
     for n in own_nodes(f.node):
+        # data.update(k=v) / data.update({"k": v}) / data.update(dict(k=v))
+        if isinstance(n, ast.Call) and isinstance(n.func, ast.Attribute) and n.func.attr == "update" and isinstance(n.func.value, ast.Name):
+            for k in n.keywords:
+                if k.arg:
+                    out[k.arg] = k.value
+            for a in n.args:
+                if isinstance(a, ast.Dict):
+                    for k, val in zip(a.keys, a.values):
+                        if isinstance(k, ast.Constant) and isinstance(k.value, str):
+                            out[k.value] = val
+                elif isinstance(a, ast.Call) and isinstance(a.func, ast.Name) and a.func.id == "dict":
+                    for k in a.keywords:
+                        if k.arg:
+                            out[k.arg] = k.value
         if isinstance(n, (ast.Assign, ast.AnnAssign)) and n.value is not None:
             tg = n.targets[0] if isinstance(n, ast.Assign) else n.target
             v = n.value
@@ -86,6 +109,8 @@ def uuid_conditional(ctx: Ctx, cls: Class) -> Optional[bool]:
         return None
     cfg = ctx.cfg(f)
     stores = [n for n in cfg.live if n.kind == "stmt" and isinstance(n.ast, ast.Assign) and isinstance(n.ast.targets[0], ast.Subscript) and isinstance(n.ast.targets[0].slice, ast.Constant) and n.ast.targets[0].slice.value == "uuid"]
+    # data.update(uuid=...) / data.update({"uuid": ...})
+    stores += [n for n in cfg.live if n.kind == "stmt" and isinstance(n.ast, ast.Expr) and isinstance(n.ast.value, ast.Call) and isinstance(n.ast.value.func, ast.Attribute) and n.ast.value.func.attr == "update" and (any(k.arg == "uuid" for k in n.ast.value.keywords) or any(isinstance(a, ast.Dict) and any(isinstance(k, ast.Constant) and k.value == "uuid" for k in a.keys) for a in n.ast.value.args))]
     # or added in the return statement: return {**data, "uuid": self.uuid}
     stores += [n for n in cfg.live if n.kind == "stmt" and isinstance(n.ast, ast.Return) and isinstance(n.ast.value, ast.Dict) and any(isinstance(k, ast.Constant) and k.value == "uuid" for k in n.ast.value.keys)]
     if not stores:
